@@ -11,6 +11,8 @@ import RsjProofs.CodecRadix
 import RsjProofs.CodecUtf8Spec
 import RsjProofs.CodecEscape
 import RsjProofs.CodecJson
+import RsjProofs.JsonExactSound
+import RsjProofs.JsonExactComplete
 namespace Rsj.Codec
 
 /-- A byte array. -/
@@ -376,15 +378,23 @@ theorem C20_parseJson_no_duplicate_keys (s : List Nat) (v : Rsj.Json.JVal)
     (h : Rsj.Json.parseJson s = .ok v) : NoDupKeys v :=
   parseJson_noDup h
 
-/-- **Full statement (unproved).** `std.parseJson` accepts exactly the RFC 8259 texts
-    (`JText`, a declarative rendering of the ABNF with the denoted value, numbers within
-    the finite doubles, no lone surrogate escape) that have no duplicate member names,
-    and returns the value they denote.  Missing: soundness and completeness of the
-    explicit-stack parser against `JText` (a refinement proof over `run`/`unwind`,
-    `numScan`, `lexStrBody`); the acceptance set is validated against Python's `json`
-    by checks/c20.py instead. -/
+/-- **C20 parseJson_exact** (the former unproved `C20_parseJson_exact_full`). `std.parseJson`
+    accepts exactly the RFC 8259 texts (`JText`, a declarative rendering of the ABNF with
+    the denoted value, numbers within the finite doubles, no lone surrogate escape) that
+    have no duplicate member names, and returns the value they denote.
+    `→`: `C20_parseJson_sound` and `C20_parseJson_no_duplicate_keys`; `←`:
+    `C20_parseJson_complete` (both stated below; lemmas in RsjProofs/JsonExact*.lean). -/
+theorem C20_parseJson_exact :
+    ∀ (s : List Nat) (v : Rsj.Json.JVal), Rsj.Json.parseJson s = .ok v ↔ (JText s v ∧ NoDupKeys v) :=
+  fun _ _ => ⟨fun h => ⟨Rsj.Json.parseJson_sound h, parseJson_noDup h⟩,
+    fun h => Rsj.Json.parseJson_complete h.1 h.2⟩
+
+/-- The statement under its old name (kept so that references to the "full statement" stay
+    valid); it is discharged by `C20_parseJson_exact`. -/
 def C20_parseJson_exact_full : Prop :=
   ∀ (s : List Nat) (v : Rsj.Json.JVal), Rsj.Json.parseJson s = .ok v ↔ (JText s v ∧ NoDupKeys v)
+
+theorem C20_parseJson_exact_full_holds : C20_parseJson_exact_full := C20_parseJson_exact
 
 /-- **Proved part**: the decoder inverts the string encoder, and accepted documents
     have no duplicate member names. -/
@@ -392,6 +402,90 @@ theorem C20_parseJson_exact_partial :
     (∀ s : List Nat, Rsj.Json.parseJson (escJson s) = .ok (.str s)) ∧
     (∀ (s : List Nat) (v : Rsj.Json.JVal), Rsj.Json.parseJson s = .ok v → NoDupKeys v) :=
   ⟨parseJson_escJson, fun _ _ h => parseJson_noDup h⟩
+
+/-- **C20 parseJson_sound.** Every text `std.parseJson` accepts is a JSON text of RFC 8259
+    (`JText`: `ws value ws` of the ABNF, numbers within the finite doubles, `\u` escapes
+    only as scalar values or surrogate pairs) and the value returned is the value that
+    text denotes.  Proof: invariant over the explicit stack of `parse_json` (`Rsj.Json.Pre`:
+    the consumed prefix is a well-formed partial document whose open containers are the
+    stack frames), inversion of `numScan` / `lexStrBody` for the scalars. -/
+theorem C20_parseJson_sound (s : List Nat) (v : Rsj.Json.JVal) (h : Rsj.Json.parseJson s = .ok v) :
+    JText s v :=
+  Rsj.Json.parseJson_sound h
+
+/-- **C20 parseJson_complete.** Every JSON text of RFC 8259 (`JText`) whose objects have
+    pairwise distinct member names at every depth is accepted by `std.parseJson`, which
+    returns the value the text denotes (same number tokens, same code points, same member
+    order).  Proof: induction on the derivation of `JValue` / `JElements` / `JMembers`,
+    generalised over the parser's stack and the text that follows. -/
+theorem C20_parseJson_complete (s : List Nat) (v : Rsj.Json.JVal) (h : JText s v) (hnd : NoDupKeys v) :
+    Rsj.Json.parseJson s = .ok v :=
+  Rsj.Json.parseJson_complete h hnd
+
+/-- **C20 parseJson_rejects_iff.** `std.parseJson` fails (with one of the `ParseError`
+    kinds; "out of fuel" is not an outcome) exactly on the texts that are not a
+    duplicate-free JSON text of RFC 8259. -/
+theorem C20_parseJson_rejects_iff (s : List Nat) :
+    (∃ e, Rsj.Json.parseJson s = .error e ∧ e ≠ .fuel) ↔ ¬ ∃ v, JText s v ∧ NoDupKeys v := by
+  constructor
+  · rintro ⟨e, he, _⟩ ⟨v, hv⟩
+    rw [(C20_parseJson_exact s v).mpr hv] at he
+    cases he
+  · intro h
+    cases hp : Rsj.Json.parseJson s with
+    | error e => exact ⟨e, rfl, fun hf => Rsj.Json.parseJson_nf s (hf ▸ hp)⟩
+    | ok v => exact absurd ⟨v, (C20_parseJson_exact s v).mp hp⟩ h
+
+/-- **C20 parseJson_unambiguous.** A text denotes at most one duplicate-free value: the
+    grammar `JText` is unambiguous on the documents the parser accepts. -/
+theorem C20_parseJson_unambiguous (s : List Nat) (v v' : Rsj.Json.JVal) (h : JText s v) (hnd : NoDupKeys v)
+    (h' : JText s v') (hnd' : NoDupKeys v') : v = v' := by
+  have a := C20_parseJson_complete s v h hnd
+  have b := C20_parseJson_complete s v' h' hnd'
+  rw [a] at b
+  cases b
+  rfl
+
+/-! Non-vacuity of `C20_parseJson_complete` / `C20_parseJson_exact`: the grammar and the
+    no-duplicate predicate are inhabited by a nested document with whitespace, an escape,
+    a surrogate pair, a negative exponent number, an array and an object:
+    ` {"a\n" : [1.5e-3 , "\ud83d\ude00"], "b":{ }}` followed by a newline. -/
+example : ∃ s v, JText s v ∧ NoDupKeys v ∧ Rsj.Json.parseJson s = .ok v := by
+  have hnum : JNumber [49, 46, 53, 101, 45, 51] :=
+    JNumber.mk (sign := []) (int := [49]) (frac := [46, 53]) (exp := [101, 45, 51]) (Or.inl rfl)
+      (.pos (by decide) (by decide) (by intro c hc; cases hc))
+      (Or.inr ⟨[53], ⟨by simp, by intro c hc; simp at hc; omega⟩, rfl⟩)
+      (Or.inr ⟨101, [45], [51], Or.inl rfl, Or.inr (Or.inr rfl), ⟨by simp, by intro c hc; simp at hc; omega⟩, rfl⟩)
+  have hov : Rsj.Json.overflows [49, 46, 53, 101, 45, 51] = false := by decide
+  have hsur : JChars [92, 117, 100, 56, 51, 100, 92, 117, 100, 101, 48, 48] [0x1F600] :=
+    JChars.pair (a := 100) (b := 56) (c := 51) (d := 100) (a' := 100) (b' := 101) (c' := 48) (d' := 48)
+      (hi := 0xD83D) (lo := 0xDE00) (by decide) (by decide) (by decide) (by decide) (by decide) (by decide) .nil
+  have hkey : JChars [97, 92, 110] [97, 10] :=
+    .raw (by decide) (by decide) (by decide) (.esc (e := 110) (v := 10) (by decide) (by decide) .nil)
+  have hws : IsWs [32] := by intro c hc; simp at hc; omega
+  have hnil : IsWs [] := by intro c hc; cases hc
+  have harr : JValue (91 :: (([] ++ [49, 46, 53, 101, 45, 51] ++ [32] ++ 44 ::
+      ([32] ++ (34 :: ([92, 117, 100, 56, 51, 100, 92, 117, 100, 101, 48, 48] ++ [34])) ++ [])) ++ [93]))
+      (.arr [.num [49, 46, 53, 101, 45, 51], .str [0x1F600]]) :=
+    .arr (.cons hnil hws (.num hnum hov) (.one hws hnil (.str hsur)))
+  have hobj := JValue.obj (JMembers.cons hnil hws hws hnil hkey harr
+    (JMembers.one hws hnil hnil hnil (JChars.raw (c := 98) (by decide) (by decide) (by decide) .nil)
+      (JValue.objEmpty hws)))
+  have hnd : NoDupKeys (.obj [([97, 10], .arr [.num [49, 46, 53, 101, 45, 51], .str [0x1F600]]),
+      ([98], .obj [])]) :=
+    .obj (by decide) (by
+      intro p hp
+      simp only [List.mem_cons, List.not_mem_nil, or_false] at hp
+      rcases hp with rfl | rfl
+      · exact .arr (by
+          intro v hv
+          simp only [List.mem_cons, List.not_mem_nil, or_false] at hv
+          rcases hv with rfl | rfl
+          · exact .num _
+          · exact .str _)
+      · exact .obj (by simp) (by intro p hp; cases hp))
+  have htext : JText _ _ := ⟨[32], _, [10], hws, (by intro c hc; simp at hc; omega), rfl, hobj⟩
+  exact ⟨_, _, htext, hnd, C20_parseJson_complete _ _ htext hnd⟩
 
 /-! Non-vacuity: the hypothesis `parseJson s = .ok v` is satisfiable (closed evaluation of
     the parser model inside Lean is too slow to be used as an example; the general
@@ -450,6 +544,18 @@ open Rsj.Codec in
 #print axioms C20_parseJson_no_duplicate_keys
 open Rsj.Codec in
 #print axioms C20_parseJson_exact_partial
+open Rsj.Codec in
+#print axioms C20_parseJson_sound
+open Rsj.Codec in
+#print axioms C20_parseJson_complete
+open Rsj.Codec in
+#print axioms C20_parseJson_exact
+open Rsj.Codec in
+#print axioms C20_parseJson_exact_full_holds
+open Rsj.Codec in
+#print axioms C20_parseJson_rejects_iff
+open Rsj.Codec in
+#print axioms C20_parseJson_unambiguous
 open Rsj.Codec in
 #print axioms C20_parseInt
 open Rsj.Codec in
